@@ -689,21 +689,9 @@ is_copy_constructible(CPPVisibility min_vis) const {
     return false;
   }
 
-  CPPInstance *destructor = get_destructor();
-  if (destructor != nullptr) {
-    if (destructor->_vis > min_vis) {
-      // Inaccessible destructor.
-      return false;
-    }
-
-    if (destructor->_storage_class & CPPInstance::SC_deleted) {
-      // Deleted destructor.
-      return false;
-    }
-  }
-
   // Implicit copy constructor.  Check if the implicit copy constructor is
-  // deleted.
+  // deleted.  Like for the default constructor, the destructor of this class
+  // itself has no bearing on that, only those of its sub-objects.
   Derivation::const_iterator di;
   for (di = _derivation.begin(); di != _derivation.end(); ++di) {
     CPPStructType *base = (*di)._base->as_struct_type();
